@@ -416,6 +416,19 @@ CHECKS['C04']['note'] = (
     'out-of-place/in-place values vs build/run/runIn/typeOf/den/linOf; trusted: Python MRO and reflected-first semantics as encoded '
     'in the interpreter; constructors\' argument checks and _call bodies hand-modelled; leaves opaque; dyadic grid, degree <= 12.')
 
+CHECKS['C16']['text'] = (
+    '20 theorems for all sizes, offsets, contents and pad modes: pad_eq_nppad (constant/wrap/reflect/edge entry for entry, order1 = '
+    'linear extrapolation), resize_intersection, crop_extend_id, offset_range_checked (offsets out of range refused), '
+    'linear_when_padconst_zero, adjoint_transpose (1-d) and adjoint_transpose_nd in the code\'s own axis order '
+    '(axis_order_irrelevant proved), guards_are_documented_limits over the GENERATED guard table, nd_accepts_iff; operator: '
+    'range_cell_unchanged, range_grid_aligned (copied block grid-aligned for every offset), range_covers_domain, weighted_adjoint '
+    '(adjoint identity for arbitrary diagonal boundary-fraction weights). No _partial theorems remain; C16-F1..F3 repaired. '
+    'dtype/out handling, the NumPy fibre view and the operator wrappers are tied by exact correspondence on 1-3-d integer arrays.')
+CHECKS['C16']['note'] = (
+    'translator tools/extract/padslices.py (slices, guard table, pad lengths, skip condition of the source by symbolic evaluation); '
+    'NumPy basic slicing/sum/diff/arange, apply_on_boundary and np.pad (its index formulas are compared with the Lean definitions '
+    'each run) trusted; arithmetic exact; offsets are naturals in the model (negative offsets only as malformed calls).')
+
 NOT_YET = {}
 
 
